@@ -59,6 +59,7 @@ class Wire:
         self.calls = []
         self.status_seen = 0
         self.on_msg = []            # callables(msg, target) of the running case
+        self.login_reply = None     # (clientID, maxLogins | None) of the next /notify 1
         self.lock = threading.Lock()
 
         def _send(msg, target):
@@ -80,7 +81,12 @@ class Wire:
                 if mm.addr == '/sync' and mm.args:
                     itf._handle_request(osc.enc_msg('/synced', mm.args[0]), target)
                 elif mm.addr == '/notify' and mm.args:
-                    if mm.args[0]:
+                    if mm.args[0] and self.login_reply is not None:
+                        # the login shard dictates clientID [maxLogins]
+                        cid, ml = self.login_reply
+                        rep = ['/done', '/notify', cid] + ([ml] if ml is not None else [])
+                        itf._handle_request(osc.enc_msg(*rep), target)
+                    elif mm.args[0]:
                         itf._handle_request(osc.enc_msg(
                             '/done', '/notify',
                             mm.args[1] if len(mm.args) > 1 else 0, 1), target)
